@@ -16,6 +16,7 @@
 EXTENDS TypeLang, Json
 
 CONSTANTS MaxDepth,      \* chain length bound
+          ExtraLeaves,   \* leaf types over which chains one level deeper than MaxDepth are also enumerated
           WithPairs,     \* BOOLEAN
           LeafMode       \* "plain": README leaf classes;  "mapped": type_mappings sources (C18)
 
@@ -41,7 +42,19 @@ Pairs == {[k |-> "tup", ts |-> <<x, y>>] : x \in PairArgs, y \in PairArgs}
          \cup {[k |-> "res", a |-> x, b |-> y] : x \in PairArgs, y \in PairArgs}
          \cup {[k |-> "hmap", a |-> L("str"), b |-> [k |-> "tup", ts |-> <<x, y>>]] : x \in PairArgs, y \in PairArgs}
 
+\* one level deeper over a reduced leaf set (quick tiers: every constructor triple over one leaf class, so
+\* that "a constructor around a composite that contains the same constructor again" is always present)
+RECURSIVE ChainsOver(_, _)
+ChainsOver(S, d) ==
+    IF d = 0 THEN S
+    ELSE LET prev == ChainsOver(S, d - 1) IN
+         prev \cup {Apply(cx, t) : <<cx, t>> \in {p \in Ctxs \X prev : CtxOK(p[1], p[2])}}
+NoExtra == {}
+StrOnly == {L("str")}
+StrAndNamed == {L("str"), Named}
+
 CaseSpace == Chains(MaxDepth) \cup (IF WithPairs THEN Pairs ELSE {})
+             \cup (IF ExtraLeaves = {} THEN {} ELSE ChainsOver(ExtraLeaves, MaxDepth + 1))
 
 Init == c \in CaseSpace
 Next == UNCHANGED c
